@@ -253,7 +253,7 @@ class StmtMixin:
                 recv = n.func.value
                 if isinstance(recv, ast.Name) and isinstance(p.env.get(recv.id, SV(T.NONE)).ty, T.Obj):
                     obj = p.env[recv.id]
-                    c = self.reg.method_contract(obj.ty.cls, n.func.attr)
+                    c = self.frame_contract(obj.ty.cls, n, p)
                     if c is None:
                         raise Unsupported(f"call of uncontracted method {obj.ty.cls}.{n.func.attr}")
                     for f in c.modifies:
@@ -276,6 +276,40 @@ class StmtMixin:
                             for f in c.modifies_args[pname]:
                                 fields.add((n.args[i].id, f))
         return names, fields
+
+    def frame_contract(self, cls, call, p):
+        """The contract whose `modifies` describes this call: the variant selected by the literal arguments when they determine
+        it, otherwise the union over all variants."""
+        cands = self.reg.method_variants(cls, call.func.attr)
+        if len(cands) > 1:
+            try:
+                fdef, _ = self.load(cands[0])
+                names = [x.arg for x in fdef.args.args][1:]
+                given = dict(zip(names, call.args))
+                given.update({k.arg: k.value for k in call.keywords if k.arg})
+                defaults = dict(zip(reversed(names), reversed(fdef.args.defaults)))
+
+                def lit(name):
+                    node = given.get(name, defaults.get(name))
+                    if isinstance(node, ast.Constant):
+                        return True, node.value
+                    if isinstance(node, ast.Name) and node.id in p.env:
+                        v = p.env[node.id]
+                        if v.ty == T.BOOL and (z3.is_true(v.t) or z3.is_false(v.t)):
+                            return True, z3.is_true(v.t)
+                        if v.ty == T.NONE:
+                            return True, None
+                    return False, None
+                ok = []
+                for c in cands:
+                    decided = [lit(nm) for nm in c.fixed]
+                    if all(d[0] for d in decided) and all(d[1] == c.fixed[nm] or (d[1] is c.fixed[nm]) for d, nm in zip(decided, c.fixed)):
+                        ok.append(c)
+                if len(ok) == 1:
+                    return ok[0]
+            except Unsupported:
+                pass
+        return self.reg.method_contract(cls, call.func.attr)
 
     def havoc(self, p, names, fields, tag):
         for n in names:
